@@ -96,6 +96,25 @@ fn run_program(ti: usize, bars: &[ProgressBar], mp: &Option<MultiProgress>, ops:
             }),
             "reset" => call(|| pb.reset()),
             "set_length" => call(|| pb.set_length(op.n1())),
+            "mp_remove" => call(|| {
+                if let Some(mp) = mp {
+                    mp.remove(pb);
+                }
+            }),
+            "mp_add" => call(|| {
+                // (re-)attach the bar; a bar that is still a member is first removed so that it is
+                // never a member twice (double add is outside the property's scope)
+                if let Some(mp) = mp {
+                    mp.remove(pb);
+                    let _ = mp.add(pb.clone());
+                }
+            }),
+            "drop_clone_finish" => call(|| {
+                // a clone that is dropped on this thread right after finishing through it
+                let c = pb.clone();
+                c.finish();
+                drop(c);
+            }),
             "mp_println" => call(|| {
                 if let Some(mp) = mp {
                     let _ = mp.println("mplog");
@@ -392,7 +411,7 @@ impl Check for C08 {
         "C08"
     }
     fn rule_text(&self) -> String {
-        "race: 2..3 simulated user threads each run 2..6 calls of update/enable_steady_tick/disable_steady_tick/tick/inc/set_message/println/suspend/finish/is_finished/getters/clone+drop/reset/set_length/mp.println/mp.suspend/mp.clear/advance/sleep on 1..3 shared bars (standalone or in a MultiProgress, hidden or on a simulated terminal), tick intervals 1 ms..10 h, under a seeded random / sticky / PCT scheduler with spurious condvar wake-ups and clock jitter; every lock, condvar, spawn, join (and optionally atomic) is a scheduling point. Oracles: no deadlock (no runnable thread and no pending timer; wait-for graph reported), all threads terminate once all handles are gone, disable/replace/drop return without the virtual clock having to move and leave no ticker thread behind. ticker: one user thread with phases enable / sleep k intervals / manual tick / inc / set_message / finish / disable: the ticker paints >= k-1 frames while idle, manual ticks do not advance the spinner, consecutive ticker frames advance it by one, no ticker frames after stop, the ticker thread is gone after finish (within two intervals), disable and drop. Non-trivial: race = >= 2 threads with operations; ticker = >= 2 phases. Distinct = distinct scenario hash; distinct interleavings reported separately.".into()
+        "race: 2..3 simulated user threads each run 2..6 calls of update/enable_steady_tick/disable_steady_tick/tick/inc/set_message/println/suspend/finish/is_finished/getters/clone+drop/reset/set_length/mp.println/mp.suspend/mp.clear/mp.remove/mp.add (re-attach)/finish through a clone dropped on the same thread/advance/sleep on 1..3 shared bars (standalone or in a MultiProgress, hidden or on a simulated terminal), tick intervals 1 ms..10 h, under a seeded random / sticky / PCT scheduler with spurious condvar wake-ups and clock jitter; every lock, condvar, spawn, join (and optionally atomic) is a scheduling point. Oracles: no deadlock (no runnable thread and no pending timer; wait-for graph reported), all threads terminate once all handles are gone, disable/replace/drop return without the virtual clock having to move and leave no ticker thread behind. ticker: one user thread with phases enable / sleep k intervals / manual tick / inc / set_message / finish / disable: the ticker paints >= k-1 frames while idle, manual ticks do not advance the spinner, consecutive ticker frames advance it by one, no ticker frames after stop, the ticker thread is gone after finish (within two intervals), disable and drop. Non-trivial: race = >= 2 threads with operations; ticker = >= 2 phases. Distinct = distinct scenario hash; distinct interleavings reported separately.".into()
     }
     fn assumptions(&self) -> Vec<String> {
         vec![
@@ -476,7 +495,7 @@ impl Check for C08 {
             for _ in 0..n {
                 let b = rng.below(nb);
                 let owner = (b as usize) % nt == ti;
-                let k = rng.weighted(&[8, if owner { 6 } else { 0 }, if owner { 5 } else { 0 }, 4, 4, 3, 2, 2, 3, 2, 2, 2, 1, 1, 1, 1, 1, 3, 2]);
+                let k = rng.weighted(&[8, if owner { 6 } else { 0 }, if owner { 5 } else { 0 }, 4, 4, 3, 2, 2, 3, 2, 2, 2, 1, 1, 1, 1, 1, 3, 2, 2, 2, 1]);
                 ops.push(match k {
                     0 => Op::new("update").n(b).n(rng.below(100)),
                     1 => Op::new("enable_steady_tick").n(b).n(rng.below(5)),
@@ -496,6 +515,9 @@ impl Check for C08 {
                     15 => Op::new("mp_suspend").n(0).n(*rng.pick(&[0, 2_000_000])),
                     16 => Op::new("mp_clear"),
                     17 => Op::new("advance").n(0).n(*rng.pick(&[0, 500_000, 2_000_000, 1_000_000_000])),
+                    19 => Op::new("mp_remove").n(b),
+                    20 => Op::new("mp_add").n(b),
+                    21 => Op::new("drop_clone_finish").n(b),
                     _ => Op::new("sleep").n(0).n(*rng.pick(&[1_000_000, 15_000_000])),
                 });
             }
